@@ -37,6 +37,7 @@ fn setup(ctx: &mut Ctx) {
     ctx.floor("symver:absurd-count", 100);
     ctx.floor("notes:huge-sizes", 100);
     ctx.floor("walker-runs", 500);
+    ctx.floor("huge-chain:cycle>65536", 4);
 }
 
 fn strata(t: Tier) -> Vec<Stratum> {
@@ -46,6 +47,8 @@ fn strata(t: Tier) -> Vec<Stratum> {
         st("adversarial-notes", scale(t, 3_000, 30_000, 32)),
         st("walker-corpus", scale(t, 10_000, 100_000, 8)),
         st("worst-case-64KiB", scale(t, 16, 160, 0)),
+        // chains and cycles longer than 2^16 entries (megabyte-sized tables)
+        st("huge-chains", scale(t, 16, 64, 0)),
     ]
 }
 
@@ -341,6 +344,26 @@ fn run(ctx: &mut Ctx, si: usize, case: u64) {
             ctx.sample(|| format!("{} ({} bytes)", input.what, input.bytes.len()));
             let salt = ctx.rng.next_u64();
             walk_one(ctx, &input.bytes, &input.what, salt, if small { 96 } else { 500 });
+        }
+        5 => {
+            let nsyms = [65_537usize + 10, 70_000, 131_073, 66_000][ctx.rng.usize_below(4)];
+            let gnu = ctx.rng.chance(1, 3);
+            let h = if gnu {
+                adversarial::gnu_nostop(&mut ctx.rng, enc, nsyms, 0)
+            } else {
+                let variant = [0u64, 4][ctx.rng.usize_below(2)];
+                let cyc = if variant == 0 { nsyms - 1 - ctx.rng.usize_below(10) } else { nsyms - 1 };
+                ctx.count("huge-chain:cycle>65536");
+                adversarial::sysv_cycle(&mut ctx.rng, enc, nsyms, cyc, variant)
+            };
+            ctx.nontrivial(crate::rng::mix(nsyms as u64, h.hash.len() as u64));
+            ctx.sample(|| format!("{} {} (hash section {} bytes, symtab {} bytes)", enc.name(), h.what, h.hash.len(), h.symtab.len()));
+            by_spec(ctx, enc, any, |ctx, w| match w {
+                0 => hash_case(ctx, AnyEndian::Little, enc, &h, gnu),
+                1 => hash_case(ctx, AnyEndian::Big, enc, &h, gnu),
+                2 => hash_case(ctx, LittleEndian, enc, &h, gnu),
+                _ => hash_case(ctx, BigEndian, enc, &h, gnu),
+            });
         }
         _ => {
             // the calibrated worst case at the property's own size limit
